@@ -178,7 +178,7 @@ static void havoc_state(void) { struct uf b; S.s = b; struct uf c; S.snap = c; s
 static _Bool I_fn(unsigned long x) {
     return x < S.s.n && EVOLVE(&S.entry_fn, &S.s) && same(&S.s, x, Q.x0) && S.merges == 0 && QUIET(&S.entry_fn);
 }
-void vx_enter_findNode_0(void) { S.f_fn = 1; S.entry_fn = S.s; }
+void vx_enter_findNode_0(void) { S.f_fn = 1; }
 _Bool vx_head_findNode_0(unsigned long *x) {
     if (S.f_fn) {
         __CPROVER_assert(I_fn(*x), "loop findNode.0 invariant base");
@@ -195,7 +195,7 @@ _Bool vx_head_findNode_0(unsigned long *x) {
 static _Bool I_ss(unsigned long x, unsigned long y) {
     return x < S.s.n && y < S.s.n && EVOLVE(&H.entry_ss, &S.s) && same(&S.s, x, Q.x0) && same(&S.s, y, Q.y0) && S.merges == 0 && QUIET(&H.entry_ss);
 }
-void vx_enter_sameSet_0(void) { H.f_ss = 1; H.entry_ss = S.s; }
+void vx_enter_sameSet_0(void) { H.f_ss = 1; }
 _Bool vx_head_sameSet_0(unsigned long *x, unsigned long *y) {
     if (H.f_ss) {
         __CPROVER_assert(I_ss(*x, *y), "loop sameSet.0 invariant base");
@@ -218,7 +218,7 @@ static _Bool I_un(unsigned long x, unsigned long y) {
 #endif
            ;
 }
-void vx_enter_unionNodes_0(void) { H.f_un = 1; H.entry_un = S.s; }
+void vx_enter_unionNodes_0(void) { H.f_un = 1; }
 _Bool vx_head_unionNodes_0(unsigned long *x, unsigned long *y) {
     if (H.f_un) {
         __CPROVER_assert(I_un(*x, *y), "loop unionNodes.0 invariant base");
@@ -306,10 +306,11 @@ static void init(void) {
     struct ghost h; S = h; struct request q; Q = q;
     S.nsteps_chg = 0; S.merges = 0; S.fresh = N;
 }
-void harness_findNode(void) { init(); h_findNode(&g_ds, Q.x0); CANARY; }
+/* the hooks' invariants speak about the state at FUNCTION entry, recorded here (robust against code moving around the loops) */
+void harness_findNode(void) { init(); S.entry_fn = S.s; h_findNode(&g_ds, Q.x0); CANARY; }
 void harness_updateRoot(void) { init(); h_updateRoot(&g_ds, Q.x0, nondet_uchar(), Q.y0, nondet_uchar()); CANARY; }
-void harness_unionNodes(void) { init(); Q.req_on = 1; Q.req_x = Q.x0; Q.req_y = Q.y0; h_unionNodes(&g_ds, Q.x0, Q.y0); CANARY; }
-void harness_sameSet(void) { init(); h_sameSet(&g_ds, Q.x0, Q.y0); CANARY; }
+void harness_unionNodes(void) { init(); Q.req_on = 1; Q.req_x = Q.x0; Q.req_y = Q.y0; H.entry_un = S.s; h_unionNodes(&g_ds, Q.x0, Q.y0); CANARY; }
+void harness_sameSet(void) { init(); H.entry_ss = S.s; h_sameSet(&g_ds, Q.x0, Q.y0); CANARY; }
 void harness_makeNode(void) { init(); h_makeNode(&g_ds); CANARY; }
 
 /* L1: bit packing */
